@@ -529,7 +529,46 @@ func ExtraDocs() []string {
 	out := append(append(NumberDocs(), MemberDocs()...), StringDocs()...)
 	out = append(append(out, NestedKeyDocs()...), ClosureDocs()...)
 	out = append(append(append(out, CaseKeyDocs()...), EscapedKeyDocs()...), AffixDocs()...)
-	return append(append(out, DimDocs()...), BBoxDocs()...)
+	out = append(append(out, DimDocs()...), BBoxDocs()...)
+	return append(out, TypeNameDocs()...)
+}
+
+// TypeNameDocs: "type" values that differ from a correctly spelled type name
+// by one string unit in front, behind or inside (every unit of the string
+// alphabet: blanks, tabs and line ends written as escapes, NUL, NBSP, BOM ...)
+// or by letter case, for each of the nine types - at top level, as a
+// Feature's geometry, as a collection member - and for the Circle convention's
+// properties.type.
+func TypeNameDocs() []string {
+	bodies := map[string]string{
+		"Point": `"coordinates":[1,2]`, "LineString": `"coordinates":[[1,2],[3,4]]`, "Polygon": `"coordinates":[[[0,0],[4,0],[4,4],[0,0]]]`,
+		"MultiPoint": `"coordinates":[[1,2]]`, "MultiLineString": `"coordinates":[[[1,2],[3,4]]]`, "MultiPolygon": `"coordinates":[[[[0,0],[4,0],[4,4],[0,0]]]]`,
+		"GeometryCollection": `"geometries":[]`, "Feature": `"geometry":{"type":"Point","coordinates":[1,2]},"properties":{}`, "FeatureCollection": `"features":[]`,
+	}
+	names := []string{"Point", "LineString", "Polygon", "MultiPoint", "MultiLineString", "MultiPolygon", "GeometryCollection", "Feature", "FeatureCollection"}
+	var out []string
+	spell := func(n string) []string {
+		v := []string{strings.ToLower(n), strings.ToUpper(n), strings.ToLower(n[:1]) + n[1:]}
+		for _, u := range StringUnits() {
+			v = append(v, u+n, n+u, n[:2]+u+n[2:])
+		}
+		return v
+	}
+	for _, n := range names {
+		for _, t := range spell(n) {
+			o := `{"type":"` + t + `",` + bodies[n] + `}`
+			out = append(out, o)
+			if n != "Feature" && n != "FeatureCollection" {
+				out = append(out, `{"type":"Feature","geometry":`+o+`,"properties":{}}`, `{"type":"GeometryCollection","geometries":[{"type":"Point","coordinates":[0,0]},`+o+`]}`)
+			} else if n == "Feature" {
+				out = append(out, `{"type":"FeatureCollection","features":[`+o+`]}`)
+			}
+		}
+	}
+	for _, t := range spell("Circle") {
+		out = append(out, `{"type":"Feature","geometry":{"type":"Point","coordinates":[1,2]},"properties":{"type":"`+t+`","radius":1000,"radius_units":"m"}}`)
+	}
+	return out
 }
 
 // NestedKeyDocs: foreign members whose values hold reserved key names
